@@ -288,6 +288,68 @@ func (c *Ctx) mapRangeSortedByKey(pos token.Pos) (bool, string) {
 	if a0, ok := call.Args[0].(*ast.Ident); !ok || a0.Name != xid.Name {
 		return false, "append target differs from the assigned slice"
 	}
+	// variant: the keys themselves are collected (`names = append(names, name)`) and the first later use is sort.Strings(names)
+	if kv, isIdent := call.Args[1].(*ast.Ident); isIdent && kv.Name == kid.Name {
+		if vid, ok := rs.Value.(*ast.Ident); rs.Value != nil && (!ok || vid.Name != "_") {
+			return false, "the loop also binds the map value"
+		}
+		state := 0 // 0 not seen, 1 sorted first, 2 used unsorted
+		why := "the collected keys are never sorted"
+		var visit func(list []ast.Stmt)
+		mentionsX := func(n ast.Node) bool {
+			found := false
+			ast.Inspect(n, func(m ast.Node) bool {
+				if id, ok := m.(*ast.Ident); ok && id.Name == xid.Name {
+					found = true
+				}
+				return !found
+			})
+			return found
+		}
+		visit = func(list []ast.Stmt) {
+			for _, st := range list {
+				if state != 0 {
+					return
+				}
+				if st.End() <= rs.End() {
+					continue
+				}
+				if st.Pos() < rs.Pos() { // enclosing statement: descend
+					switch x := st.(type) {
+					case *ast.BlockStmt:
+						visit(x.List)
+					case *ast.IfStmt:
+						visit(x.Body.List)
+						if x.Else != nil {
+							visit([]ast.Stmt{x.Else})
+						}
+					case *ast.ForStmt:
+						visit(x.Body.List)
+					case *ast.RangeStmt:
+						visit(x.Body.List)
+					default:
+						state, why = 2, "the loop is nested in a statement the rule does not look into"
+					}
+					continue
+				}
+				if es, ok := st.(*ast.ExprStmt); ok {
+					if ce, ok := es.X.(*ast.CallExpr); ok && len(ce.Args) == 1 && types.ExprString(ce.Fun) == "sort.Strings" && types.ExprString(ce.Args[0]) == xid.Name {
+						state = 1
+						return
+					}
+				}
+				if mentionsX(st) {
+					state, why = 2, "the collected keys are used at "+c.fset.Position(st.Pos()).String()+" before sort.Strings"
+					return
+				}
+			}
+		}
+		visit(fd.Body.List)
+		if state == 1 {
+			return true, ""
+		}
+		return false, why
+	}
 	lit, ok := call.Args[1].(*ast.CompositeLit)
 	if !ok {
 		return false, "the appended value is not a composite literal"
